@@ -315,7 +315,12 @@ def focus_c01(proj, rng, steps):
         if j["state"] in ("pending", "running"):
             j["state"] = rng.choice(["completed", "completed", "failed"])
     proj.cluster.write(st)
-    if rng.random() < 0.7 and not proj.hashing:
+    r0 = rng.random()
+    if r0 < 0.25:
+        # hashing switched OFF the way a user does it: a recorded-spec mismatch (or no record at all) must not make
+        # an up-to-date target stale
+        proj.set_flag("use_spec_hashes", False, rng, via_cli=True)
+    elif r0 < 0.8 and not proj.hashing:
         proj.set_flag("use_spec_hashes", True, rng)
     steps.append(H.step_status(proj))
     steps.append(H.step_run(proj))
@@ -366,6 +371,21 @@ def focus_c07(proj, rng, steps):
     names = [t["name"] for t in proj.targets]
     if rng.random() < 0.3:
         steps.append(H.step_run(proj, [rng.choice(["NoSuchTarget", "zzz*"])]))        # selects nothing: submits nothing
+    if not (cluster.read_json(proj.tracked_path()) or {}):
+        # nothing tracked yet (on a fresh local pool the first job gets id 0): submit a producer alone, leave its job
+        # pending although its outputs are there already, then submit the rest — its consumers must wait for THAT job
+        import gen
+        outs_of = {t["name"]: {os.path.normpath(o) for o in gen.flatten_shape(t["outputs"])} for t in proj.targets}
+        ins_of = {t["name"]: {os.path.normpath(i) for i in gen.flatten_shape(t["inputs"])} for t in proj.targets}
+        producers = [a for a in names if outs_of[a] and any(outs_of[a] & ins_of[b] for b in names if b != a)
+                     and not any(outs_of[c] & ins_of[a] for c in names if c != a)]
+        if producers:
+            a = rng.choice(producers)
+            steps.append(H.step_run(proj, [a]))
+            for o in outs_of[a]:
+                proj.put_file(o)
+            steps.append(H.step_run(proj))
+            steps.append(H.step_status(proj))
     for _ in range(rng.randint(2, 4)):
         pats = rand_patterns(rng, names, allow_nomatch=False) if rng.random() < 0.6 else []
         steps.append(H.step_run(proj, pats, reject_nth=rng.choice([None, None, None, 2, 3]) if proj.backend != "local" else None))
